@@ -48,6 +48,10 @@ LoggedRows(c) == { Trunc(c.rows[j]) : j \in 1..Len(c.rows) }
 (* class is still reported.  The model is run on the pattern that was      *)
 (* actually compiled (c.ast), for every text and offset.                   *)
 (***************************************************************************)
+\* ... provided that no DELEGATED piece is itself of the class: what the regex crate does with captures inside a nullable loop is not
+\* RefSem either (it is the same finding seen through the other engine), so such records stay unjudged
+DesignJudgeable(ast, ng) == LET pr == Compile(ast, ng) IN
+                            pr.err = "" /\ \A j \in 1..Len(pr.p) : pr.p[j].op = "Delegate" => ~Excluded_F1(pr.p[j].ast)
 DesignRows(ast, ng) ==
    LET pr == TLCEval(Compile(ast, ng)) IN
    IF pr.err # "" THEN {<<0, 0, -8>>}          \* the model compiler refuses the pattern: nothing to compare (never equals a logged row set of an ok record)
@@ -79,6 +83,8 @@ TStep ==
       IF c.st # "ok"
       THEN /\ ncerr' = ncerr + 1 /\ UNCHANGED <<nok, nrej, nexcl, ncells, npos>>
            /\ Emit("CERR", [id |-> c.id, pat |-> c.pat, ek |-> c.ek])
+      ELSE IF Excluded(SemAst(c)) /\ ~DesignJudgeable(c.ast, c.ng)
+      THEN /\ nexcl' = nexcl + 1 /\ UNCHANGED <<nok, nrej, ncerr, ncells, npos>>
       ELSE IF Excluded(SemAst(c))
       THEN LET exp == TLCEval(DesignRows(c.ast, c.ng))
                log == TLCEval(LoggedRows(c))
